@@ -16,6 +16,7 @@ THEOREMS = [
     "C01_clean",
     "C01_no_error",
     "C01_progress",
+    "C01_terminates",
 ]
 RULE = (
     "random acyclic data graphs over 2..N term nodes inserted in random (non-topological) order, 3 input slots "
